@@ -1,5 +1,6 @@
 """C09 -- an automaton's three views stay coherent (V1, V2, B1, U1)."""
 from ..rules import numpy_rules as NP
+from ..rules import misc_rules as MI
 from ..rules import fsa_rules as F
 from ..rules import cache_rules as CA
 from ..rules import sibling_rules as SI
@@ -45,6 +46,7 @@ def run(ctx):
     ctx.do(SI.rule_dv1)
     ctx.do(NP.rule_mc1, [SI.FSA])
     ctx.do(SI.rule_acc1, [SI.FSA])
+    ctx.do(MI.rule_ofs1)
     ctx.do(u1, ENTRIES, min_functions=25)
     ctx.r.assume("set-based model equality over histories and the GAP "
                  "parser's string semantics are not decided (numerical / "
